@@ -185,7 +185,7 @@ func runStress(c Case) (out vstat.Outcome, err error) {
 						if o.Via == 1 {
 							f.cancel()
 						} else {
-							f.Close()
+							f.extClose()
 						}
 					}
 				case opRecvErr, opHandlerErr:
@@ -263,7 +263,7 @@ func runStress(c Case) (out vstat.Outcome, err error) {
 	}
 	for _, f := range allFakes() {
 		f.setDrain()
-		f.Close()
+		f.extClose()
 	}
 	var tags []string
 	for t := 0; t < nTags; t++ {
@@ -285,7 +285,7 @@ func runStress(c Case) (out vstat.Outcome, err error) {
 		}
 		for _, f := range allFakes() { // a Send still being processed may have opened a stream meanwhile
 			f.setDrain()
-			f.Close()
+			f.extClose()
 		}
 		if time.Now().After(deadline) {
 			h.violate("%d index entries survive after every stream has ended", left)
@@ -299,7 +299,7 @@ func runStress(c Case) (out vstat.Outcome, err error) {
 		time.Sleep(time.Millisecond)
 		for _, f := range allFakes() {
 			f.setDrain()
-			f.Close()
+			f.extClose()
 		}
 	}
 	bgDone := make(chan struct{})
